@@ -8,8 +8,13 @@ package command
 //
 // gzip helpers: allocate only (trusted; the codec inverse gunzip(gzip(x)) == x is the listed
 // assumption about compress/gzip).
+//@ spec import lib/bytes
+//@ spec import lib/gzip_buffer
+// The compressed bytes handed back live in a buffer made by this very call: nothing else (a pool,
+// a package variable, a later call) can overwrite them while the caller copies them into the log.
 //@ func gzCompress
-//@   noheap
+//@   assigns bufLen
+//@   ensures [owned-result] result1 == nil ==> fresh(bufOwner(result0))
 //@ func gzUncompress
 //@   noheap
 //
@@ -19,6 +24,7 @@ package command
 // are returned unchanged. The flag returned says which.
 //@ func (*RequestMarshaler) Marshal
 //@   requires [recv] m != nil
+//@   assigns *, bufLen
 //@   ghost var tried bool = false
 //@   ghost var pbB slice = nilslice
 //@   ghost var gzB slice = nilslice
